@@ -16,6 +16,14 @@ def materialise(root, tree, order_seed=0, store=None):
     for e in entries:
         p = os.path.join(root, e[1])
         if e[0] == 'f':
+            if len(e) > 3 and e[3] == 'link' and store is not None:
+                # a file entry with a fourth element "link": a symbolic link to a real file kept outside the tree
+                os.makedirs(store, exist_ok=True)
+                real = os.path.join(store, 'f%d_%s' % (len(os.listdir(store)), e[1]))
+                with open(real, 'wb') as f:
+                    f.write(e[2].encode('utf-8') if isinstance(e[2], str) else bytes(e[2]))
+                os.symlink(real, p)
+                continue
             with open(p, 'wb') as f:
                 f.write(e[2].encode('utf-8') if isinstance(e[2], str) else bytes(e[2]))
         elif len(e) > 3 and e[3] == 'link' and store is not None:
@@ -33,6 +41,10 @@ def snapshot(root):
         for f in files:
             p = os.path.join(dirpath, f)
             rel = os.path.relpath(p, root)
+            if os.path.islink(p) and not os.path.exists(p):
+                # the link is there, what it pointed to is gone
+                out[rel] = 'dangling link'
+                continue
             with open(p, 'rb') as fh:
                 out[rel] = hashlib.sha1(fh.read()).hexdigest()
     return out
